@@ -364,6 +364,39 @@ def rule4_signed(ctx, fl):
     ctx.floor('C15.4', 20)
 
 
+def rule5_getters(ctx, fl):
+    """what the application is told: the worker index is the rank field of the executing worker's record (the field
+    myth_setup_worker fills with the index, C15.5), the worker count is g_attr.n_workers (the field initialisation sizes g_envs by)"""
+    v = ctx.view('myth_if_native.c', roots=['myth_get_worker_num_body', 'myth_get_num_workers_body'],
+                 stops=('myth_ensure_init', 'myth_get_current_env_noinline', 'myth_init_ex_body') + lib.SPIN_STOPS, flavour=fl)
+    f = ctx.need_fn(v, 'myth_get_worker_num_body')
+    rets = [r for r in f.order if r.op == 'ret' and r.ops]
+    ok = bool(rets)
+    for r in rets:
+        l = f.get(f.strip(r.ops[0]))
+        ok = ok and l is not None and l.op == 'load' and f.field(l) == 'myth_running_env.rank'
+        if ok:
+            root = f.get(f.strip(f.ap(l.ops[0]).root))
+            # the record of the executing worker: the env getter, or &g_envs[g_worker_rank]
+            from .c02 import rank_index
+            cur = root is not None and ((root.op == 'call' and (root.callee or '').startswith('myth_get_current_env')) or
+                                        (root.op == 'load' and isinstance(root.ops[0], dict) and root.ops[0].get('g') == 'g_envs'))
+            if cur and root.op == 'load':
+                st = [x for x in f.ap(l.ops[0]).steps if x[0] == 'p']
+                cur = len(st) == 1 and rank_index(f, st[0][1])
+            ok = ok and cur
+    ctx.ob('C15.5', 'myth_get_worker_num returns the rank of the executing worker\'s record', ok,
+           'e = current env; return e->rank', loc=f.loc)
+    g = ctx.need_fn(v, 'myth_get_num_workers_body')
+    rets = [r for r in g.order if r.op == 'ret' and r.ops]
+    okg = bool(rets)
+    for r in rets:
+        l = g.get(g.strip(r.ops[0]))
+        okg = okg and l is not None and l.op == 'load' and g.field(l) == 'myth_globalattr_t.n_workers' and \
+            isinstance(g.ap(l.ops[0]).root, dict) and g.ap(l.ops[0]).root.get('g') == 'g_attr'
+    ctx.ob('C15.5', 'myth_get_num_workers returns g_attr.n_workers', okg, 'the count the workers were created from', loc=g.loc)
+
+
 def rule5_workers(ctx, fl):
     ctx.doc('C15.5', 'myth_init_ex_body_really: g_envs is allocated for nw entries, g_envs_sz = nw, worker threads are created for '
             'i = 1 .. nw-1 with argument i and worker 0 runs on the caller; myth_setup_worker stores its rank argument in '
@@ -556,6 +589,7 @@ def run(ctx):
         rule3_bounds(ctx, fl)
         rule4_signed(ctx, fl)
         rule4_attr_defined(ctx, fl)
+        rule5_getters(ctx, fl)
         ctx.doc('C15.10', 'global attribute accessors: myth_globalattr_set_<X> stores its argument in field X (of the given object or of '
                 'g_attr) and nothing else, get_<X> reads the same field - "runs with the number of workers / stack size requested '
                 'through the global attributes" presupposes that the request lands in the field initialisation reads')
@@ -572,6 +606,8 @@ INITC = 'src/myth_init.c'
 BIND = 'src/myth_bind_worker.c'
 INITH = 'src/myth_init_func.h'
 MUTANTS = [
+    {'name': 'myth_get_num_workers reports the size of the env table slot instead of the worker count', 'expect': 'C15.5',
+     'edits': [('src/myth_worker_func.h', "  return g_attr.n_workers;\n}", "  return g_attr.bind_workers;\n}")]},
     {'name': 'myth_globalattr_set_n_workers writes bind_workers', 'expect': 'C15.10',
      'edits': [('src/myth_init_func.h', "  attr->n_workers = n_workers;", "  attr->bind_workers = n_workers;")]},
     {'name': 'global attribute default for child_first never written (sweep M0334, passes the suite)', 'expect': 'C15.4',
